@@ -229,6 +229,10 @@ func CheckEpisode(ep Episode) (*Violation, []callResult) {
 	}
 	s := buildUnderOrder(ep.Source, ep.BuildOrder)
 	if s == nil {
+		if ep.BuildOrder != 0 && len(ep.Calls) > 0 {
+			// the list can be built under the default order (the references exist) but not under this one
+			return mk("nondeterministic-outcome", ep.Calls[0].Writer, "reading the document / applying the transformations failed or panicked under this map-iteration order and succeeds under the default one"), nil
+		}
 		return nil, nil
 	}
 	var results []callResult
@@ -571,7 +575,7 @@ func RunC19(cfg Config) (*ShardResult, error) {
 		}
 	}
 	// (d2) the list itself built under seeded map orders (documents read by the library, transformation pipelines)
-	for si, src := range mine {
+	for _, src := range mine {
 		if src.Spec != nil && len(src.Ops) == 0 || src.Many > 0 {
 			continue // built in code without any library call
 		}
@@ -581,7 +585,7 @@ func RunC19(cfg Config) (*ShardResult, error) {
 				calls = append(calls, Invocation{Writer: w})
 			}
 			res.Probes["list_built_under_seeded_map_order"]++
-			if run(Episode{Kind: "episode", Source: src, Calls: calls, BuildOrder: Key64("build-order", fmt.Sprint(cfg.Seed), fmt.Sprint(si), fmt.Sprint(k)) | 1}) {
+			if run(Episode{Kind: "episode", Source: src, Calls: calls, BuildOrder: Key64("build-order", fmt.Sprint(cfg.Seed), canon.HashBytes(mustJSON(src)), fmt.Sprint(k)) | 1}) {
 				return res, nil
 			}
 		}
@@ -589,6 +593,17 @@ func RunC19(cfg Config) (*ShardResult, error) {
 	// (e) plain build, native map randomisation: every (list, writer) written reps times in each of procs fresh processes
 	if err := c19PlainStage(cfg, lim, mine, res); err != nil {
 		res.Notes = append(res.Notes, "plain-build repetition stage skipped: "+err.Error())
+	}
+	// (f) the command line tool, repeated (real processes)
+	for _, name := range c19CLICases {
+		if !cfg.Mine(Key64("c19-cli", name)) {
+			continue
+		}
+		res.Evaluations++
+		res.Extra["cli_repetition_cases_real_os"]++
+		if v := c19CLIOne(cfg, name); v != nil {
+			res.Violations = append(res.Violations, *v)
+		}
 	}
 	return res, nil
 }
@@ -858,16 +873,7 @@ func c19PlainStage(cfg Config, lim c19Limits, srcs []ListSource, res *ShardResul
 	}
 	c19FileStage(cfg, srcs, res)
 	c19FirstWriteStage(cfg, srcs, res)
-	for _, name := range c19CLICases {
-		if !cfg.Mine(Key64("c19-cli", name)) {
-			continue
-		}
-		res.Evaluations++
-		res.Extra["cli_repetition_cases_real_os"]++
-		if v := c19CLIOne(cfg, name); v != nil {
-			res.Violations = append(res.Violations, *v)
-		}
-	}
+
 	// long lists are written fewer times (the cost of a write grows with the list, the number of map orders does not)
 	var small, big []ListSource
 	for _, src := range srcs {
